@@ -1,4 +1,5 @@
 import Generated.Facts
+import Model.Conc
 /-!
 # C13 / C14 — the lock discipline of the Go code, from the regenerated facts
 
@@ -52,5 +53,71 @@ theorem lockFacts_cover :
 example : guarded ("toMultihash", "heads", "read", "none") = false := by decide
 example : guarded ("Join", "heads", "write", "R") = false := by decide
 example : guarded ("Len", "Entries", "read", "R") = true := by decide
+
+/-! ## the programs of `Model.Conc` are the lock structure of the code
+
+`Generated.lockShape` is, for every API method, the sequence of lock operations, hook points, channel
+sends and closes on the function's main path (the path without early return), with calls to other
+locking methods inlined (`harness/cmd/extract/lockshape.go`).  The obligations below are **derived**:
+the right-hand sides are computed from the model's programs, not written down.  A change that adds a
+second bracket (a torn composite read), reads state through a locking accessor before taking the write
+lock, keeps the lock across the channel sends, or moves a read of the other log under the own lock
+changes the left-hand side. -/
+
+open Model.Conc in
+def hookStr : Hook → String
+  | .opStart => "op.start"
+  | .appendEnter => "append.enter"
+  | .appendLocked => "append.locked"
+  | .appendPublish => "append.publish"
+  | .joinEnter => "join.enter"
+  | .joinHeadsRead => "join.heads-read"
+  | .joinEntriesRead => "join.entries-read"
+  | .joinLocked => "join.locked"
+  | .joinPublish => "join.publish"
+  | .iteratorLocked => "iterator.locked"
+
+open Model.Conc in
+/-- the event of an instruction as the extractor names it; `self` is the receiver's log.  Data accesses
+    and the harness' own start point have no counterpart in the shape. -/
+def evOf (self : Lid) : Instr → Option String
+  | .rlock l => some (if l = self then "RLock(l)" else "RLock(o)")
+  | .runlock l => some (if l = self then "RUnlock(l)" else "RUnlock(o)")
+  | .lock l => some (if l = self then "Lock(l)" else "Lock(o)")
+  | .unlock l => some (if l = self then "Unlock(l)" else "Unlock(o)")
+  | .hook .opStart => none
+  | .hook p => some ("hook:" ++ hookStr p)
+  | _ => none
+
+open Model.Conc in
+def progShape (self : Lid) (p : List Instr) : List String := p.filterMap (evOf self)
+
+def codeShape (m : String) : List String :=
+  match Generated.lockShape.find? (·.1 == m) with
+  | some p => p.2
+  | none => ["<no such method>"]
+
+/-- the same without the channel events (the model's `Iterator` ends when the result is collected) -/
+def lockOnly (l : List String) : List String := l.filter (fun e => e != "send" && e != "close")
+
+open Model.Conc in
+theorem shape_append : codeShape "Append" = progShape 0 (appendProg 0 1 [] 0) := by decide
+open Model.Conc in
+theorem shape_join : codeShape "Join" = progShape 0 (joinProg 0 1 [] (-1)) := by decide
+open Model.Conc in
+theorem shape_setIdentity : codeShape "SetIdentity" = progShape 0 (setIdentityProg 0 []) := by decide
+open Model.Conc in
+/-- one read bracket each: no composite read is torn -/
+theorem shape_readers :
+    ["Values", "Get", "Has", "Len", "GetEntries", "ToSnapshot"].all (fun m => codeShape m == progShape 0 (readerProg 0)) = true ∧
+    ["Heads", "RawHeads", "ToJSONLog"].all (fun m => codeShape m == progShape 0 (headsProg 0)) = true := by decide
+open Model.Conc in
+theorem shape_toMultihash : codeShape "ToMultihash" = progShape 0 (toMultihashProg 0) := by decide
+open Model.Conc in
+theorem shape_iterator : lockOnly (codeShape "Iterator") = progShape 0 (iteratorProg 0) := by decide
+/-- `Iterator` sends and closes only after it has released the lock, and takes no lock afterwards -/
+theorem iterator_sends_after_unlock :
+    ((codeShape "Iterator").takeWhile (· != "RUnlock(l)")).all (fun e => e != "send" && e != "close") = true ∧
+    ((codeShape "Iterator").dropWhile (· != "RUnlock(l)")).drop 1 = ["send", "close"] := by decide
 
 end Model.C13
